@@ -6,22 +6,22 @@ ROOT = seedtest.ROOT
 props = {json.loads(l)['id']: json.loads(l) for l in open(os.path.join(ROOT, 'properties.jsonl'))}
 for pid in sys.argv[1:]:
     for m in ('m1', 'm2'):
-        src = '/tmp/wt/%s/MUTANTS/%s' % (pid, m)
+        src = '%s/%s/MUTANTS/%s' % (os.environ.get('SEED_SRC', '/tmp/wt'), pid, m)
         if not os.path.exists(os.path.join(src, 'patch.diff')):
             print(pid, m, 'missing'); continue
-        dst = os.path.join(ROOT, 'seeded', '%s-%s' % (pid, m))
+        dst = os.path.join(ROOT, 'seeded', '%s-%s%s' % (pid, os.environ.get('SEED_TAG', ''), m))
         os.makedirs(dst, exist_ok=True)
         for fn in ('patch.diff', 'demo.py', 'notes.md'):
             if os.path.exists(os.path.join(src, fn)):
                 shutil.copy(os.path.join(src, fn), os.path.join(dst, fn))
         c = seedtest.confirm(dst)
         meta = {'property': pid, 'title': props[pid]['title'], 'origin': 'independent sub-agent given only the property text and a scratch worktree',
-                'confirm': c, 'ran': ['harness/seedtest.py confirm seeded/%s-%s' % (pid, m)]}
+                'confirm': c, 'ran': ['harness/seedtest.py confirm ' + os.path.relpath(dst, ROOT)]}
         if c.get('confirmed'):
             extra = os.environ.get('SEED_ALSO', '').split()
             d = seedtest.detect(dst, [pid] + extra)
             meta['detect'] = d
-            meta['ran'].append('harness/seedtest.py detect seeded/%s-%s %s' % (pid, m, ' '.join([pid] + extra)))
+            meta['ran'].append('harness/seedtest.py detect %s %s' % (os.path.relpath(dst, ROOT), ' '.join([pid] + extra)))
             meta['caught_by'] = [p for p, r in d.items() if r['rc'] == 1]
         json.dump(meta, open(os.path.join(dst, 'meta.json'), 'w'), indent=1)
         print(pid, m, 'confirmed' if c.get('confirmed') else 'NOT CONFIRMED %s' % c,
